@@ -116,7 +116,8 @@ type plan struct {
 }
 
 type pend struct {
-	ch chan plan
+	ch  chan plan
+	ctx context.Context // cancelled for calls of the connection once it shuts down
 }
 
 type appCall struct {
@@ -139,6 +140,7 @@ type world struct {
 	ndeliv    int
 	deliv     []string
 	handles   []*capnp.Client
+	issue     map[int]chan func() // per handle: calls are issued one after the other, as one goroutine would
 	calls     []*appCall
 	appres    []string
 	closed    bool
@@ -156,7 +158,7 @@ func (s shutdowner) Shutdown() {
 }
 
 func newWorld(boot bool) *world {
-	w := &world{x: newXport(), pending: map[int]*pend{}}
+	w := &world{x: newXport(), pending: map[int]*pend{}, issue: map[int]chan func(){}}
 	for j := 0; j < nsrv; j++ {
 		j := j
 		srv := server.New([]server.Method{{
@@ -176,7 +178,7 @@ func newWorld(boot bool) *world {
 func (w *world) impl(j int) func(context.Context, *server.Call) error {
 	return func(ctx context.Context, call *server.Call) error {
 		tag := call.Args().Uint32(0)
-		p := &pend{ch: make(chan plan, 1)}
+		p := &pend{ch: make(chan plan, 1), ctx: ctx}
 		w.mu.Lock()
 		k := w.ndeliv
 		w.ndeliv++
@@ -229,8 +231,11 @@ func (w *world) settle() {
 		}
 		w.mu.Lock()
 		for k, p := range w.pending {
-			p.ch <- plan{kind: 'e'}
-			delete(w.pending, k)
+			// calls that reached a server without the connection (resolved handles) are not its business
+			if p.ctx.Err() != nil {
+				p.ch <- plan{kind: 'e'}
+				delete(w.pending, k)
+			}
 		}
 		for _, c := range w.calls {
 			if c.held {
@@ -334,12 +339,30 @@ func (w *world) doApp(tok string) {
 			ac.held = true
 		}
 		w.mu.Unlock()
-		go func() {
+		h := atoi(a[0])
+		w.mu.Lock()
+		q := w.issue[h]
+		if q == nil {
+			q = make(chan func(), 256)
+			w.issue[h] = q
+			go func() {
+				for f := range q {
+					f()
+				}
+			}()
+		}
+		w.mu.Unlock()
+		do := func() {
 			ans, rel := cl.SendCall(ctx, capnp.Send{Method: method,
 				ArgsSize:  capnp.ObjectSize{DataSize: 8, PointerCount: uint16(len(caps))},
 				PlaceArgs: w.placeArgs(caps, tag, ac.hold)})
-			w.finishCall(ac, ans, rel)
-		}()
+			go w.finishCall(ac, ans, rel)
+		}
+		if ac.hold != nil {
+			go do() // a held call blocks inside SendCall; it must not hold up the handle's later calls
+		} else {
+			q <- do
+		}
 	case 'p':
 		w.mu.Lock()
 		ac, ctx := w.newCall()
@@ -384,9 +407,15 @@ func (w *world) doApp(tok string) {
 	case 'l':
 		w.mu.Lock()
 		c := w.handle(atoi(a[0]))
+		q := w.issue[atoi(a[0])]
 		w.mu.Unlock()
 		if c != nil {
-			go c.Release()
+			if q != nil {
+				// after the calls already made on this handle (one sequential user per handle)
+				q <- func() { go c.Release() }
+			} else {
+				go c.Release()
+			}
 		}
 	case 'x':
 		w.mu.Lock()
@@ -503,6 +532,11 @@ func (w *world) finish() string {
 	for _, c := range w.calls {
 		c.cancel()
 	}
+	w.mu.Lock()
+	for _, q := range w.issue {
+		close(q)
+	}
+	w.mu.Unlock()
 	for j := range w.master {
 		w.master[j].Release()
 	}
